@@ -1,0 +1,52 @@
+//! Schedule points for the verification harness (feature `verif_hooks`, off by default).
+//!
+//! A harness installs a per-thread hook; the pool calls [`point`] at named places *outside* its
+//! lock regions, so the hook may run other pool operations inline ("the other thread runs here").
+use std::cell::RefCell;
+
+thread_local! {
+    static HOOK: RefCell<Option<Box<dyn FnMut(&'static str)>>> = RefCell::new(None);
+}
+
+/// Installs (or removes) the hook of the current thread.
+pub fn set_hook(f: Option<Box<dyn FnMut(&'static str)>>) {
+    HOOK.with(|h| *h.borrow_mut() = f);
+}
+
+/// A named schedule point. The hook is taken out while it runs, so points reached from
+/// inside the hook do not re-enter it.
+pub fn point(name: &'static str) {
+    let f = HOOK.with(|h| h.borrow_mut().take());
+    if let Some(mut f) = f {
+        f(name);
+        HOOK.with(|h| {
+            let mut h = h.borrow_mut();
+            if h.is_none() {
+                *h = Some(f);
+            }
+        });
+    }
+}
+
+/// Read-only snapshot of a managed pool.
+#[derive(Clone, Copy, Debug, PartialEq, Eq)]
+pub struct ManagedSnapshot {
+    pub permits: usize,
+    pub closed: bool,
+    pub size: usize,
+    pub idle: usize,
+    pub max_size: usize,
+    pub users: usize,
+}
+
+/// Read-only snapshot of an unmanaged pool.
+#[derive(Clone, Copy, Debug, PartialEq, Eq)]
+pub struct UnmanagedSnapshot {
+    pub permits: usize,
+    pub size_permits: usize,
+    pub closed: bool,
+    pub size: usize,
+    pub available: isize,
+    pub queue_len: usize,
+    pub max_size: usize,
+}
